@@ -75,6 +75,9 @@ type walker struct {
 	vars   []int
 	counts []int
 	bad    bool
+	// encl[offset of a varint] = offsets of the length prefixes of the strings around it, outermost first
+	encl  map[int][]int
+	stack []int
 }
 
 func (w *walker) uvar(count bool) uint64 {
@@ -88,6 +91,9 @@ func (w *walker) uvar(count bool) uint64 {
 		return 0
 	}
 	w.vars = append(w.vars, w.p)
+	if len(w.stack) > 0 {
+		w.encl[w.p] = append([]int{}, w.stack...)
+	}
 	if count {
 		w.counts = append(w.counts, w.p)
 	}
@@ -114,13 +120,14 @@ func (w *walker) byte() byte {
 
 // str walks a length-prefixed string and calls inside with the walker limited to it.
 func (w *walker) str(inside func(*walker)) {
+	at := w.p
 	l := w.uvar(false)
 	if w.bad || l > uint64(len(w.b)-w.p) {
 		w.bad = true
 		return
 	}
 	if inside != nil {
-		sub := &walker{b: w.b[:w.p+int(l)], p: w.p}
+		sub := &walker{b: w.b[:w.p+int(l)], p: w.p, encl: w.encl, stack: append(append([]int{}, w.stack...), at)}
 		inside(sub)
 		w.vars = append(w.vars, sub.vars...)
 		w.counts = append(w.counts, sub.counts...)
@@ -179,8 +186,8 @@ func (w *walker) tx() {
 	}
 }
 
-func walk(kind string, b []byte) (vars, counts []int) {
-	w := &walker{b: b}
+func walk(kind string, b []byte) (vars, counts []int, encl map[int][]int) {
+	w := &walker{b: b, encl: map[int][]int{}}
 	switch kind {
 	case partHeader:
 		w.header()
@@ -194,7 +201,7 @@ func walk(kind string, b []byte) (vars, counts []int) {
 			}
 		}
 	}
-	return w.vars, w.counts
+	return w.vars, w.counts, w.encl
 }
 
 // smallVarintOffsets: every offset where a varint parses to something that could be a length or a count.
@@ -271,7 +278,7 @@ func applyBytes(b []byte, kind string, m Mut, other []byte) ([]byte, string) {
 		out := append([]byte{}, b...)
 		pos := m.B % n
 		if kind != "" && m.C%2 == 0 {
-			if vars, _ := walk(kind, b); len(vars) > 0 {
+			if vars, _, _ := walk(kind, b); len(vars) > 0 {
 				pos = vars[m.B%len(vars)]
 			}
 		}
@@ -279,15 +286,17 @@ func applyBytes(b []byte, kind string, m Mut, other []byte) ([]byte, string) {
 		return out, fmt.Sprintf("setbyte@%d=%#x", pos, out[pos])
 	case "uvarint", "count":
 		var cands []int
+		var encl map[int][]int
 		if kind != "" {
-			vars, counts := walk(kind, b)
+			var vars, counts []int
+			vars, counts, encl = walk(kind, b)
 			cands = vars
 			if m.K == "count" {
 				cands = counts
 			}
 		}
 		if len(cands) == 0 || (m.K == "uvarint" && m.C%3 == 0) {
-			cands = smallVarintOffsets(b)
+			cands, encl = smallVarintOffsets(b), nil
 		}
 		if len(cands) == 0 {
 			return b, m.K + "-"
@@ -298,7 +307,24 @@ func applyBytes(b []byte, kind string, m Mut, other []byte) ([]byte, string) {
 			old = 1
 		}
 		neu := uvarBoundaries[m.A%len(uvarBoundaries)]
-		return replaceAt(b, pos, old, neu), fmt.Sprintf("%s@%d=%x", m.K, pos, neu)
+		out := replaceAt(b, pos, old, neu)
+		d := fmt.Sprintf("%s@%d=%x", m.K, pos, neu)
+		// a careful attacker keeps the enclosing strings consistent: add the growth to
+		// their length prefixes (innermost first; they all lie before pos)
+		if around := encl[pos]; len(around) > 0 && m.C%4 != 1 {
+			delta := len(neu) - old
+			for i := len(around) - 1; i >= 0 && delta != 0; i-- {
+				l, n := binary.Uvarint(out[around[i]:])
+				if n <= 0 || int64(l)+int64(delta) < 0 {
+					break
+				}
+				enc := uv(uint64(int64(l) + int64(delta)))
+				out = replaceAt(out, around[i], n, enc)
+				delta += len(enc) - n
+			}
+			d += "+len"
+		}
+		return out, d
 	case "wirelen":
 		cands := wireVarintOffsets(b)
 		if len(cands) == 0 {
